@@ -130,6 +130,9 @@ type Rewriter struct {
 	orderedBy bool
 	modified  bool
 	returning bool
+
+	// now is the time value pinned for the statement being rewritten.
+	now *sql.NumberLit
 }
 
 // NewRewriter returns a new Rewriter. This object is not thread
@@ -147,6 +150,7 @@ func NewRewriter() *Rewriter {
 // Do rewrites the provided statement. If the statement is rewritten, the second return value is true.
 func (rw *Rewriter) Do(stmt sql.Statement) (sql.Statement, bool, bool, error) {
 	rw.modified = false
+	rw.now = nil
 	node, err := sql.Walk(rw, stmt)
 	if err != nil {
 		return nil, false, false, err
@@ -165,9 +169,8 @@ func (rw *Rewriter) Visit(node sql.Node) (w sql.Visitor, n sql.Node, err error) 
 		rw.orderedBy = true
 		return rw, node, nil
 	case *sql.Call:
-		// If used, ensure the value is same for the duration of the statement
-		jd := julianDayAsNumberLit(rw.nowFn())
-
+		// 'now' has a single value within one SQLite statement, so every call
+		// of the statement gets the same pinned value (see pinnedNow).
 		if rw.RewriteTime && !n.Star.IsValid() &&
 			(strings.EqualFold(n.Name.Name, "date") ||
 				strings.EqualFold(n.Name.Name, "time") ||
@@ -176,27 +179,27 @@ func (rw *Rewriter) Visit(node sql.Node) (w sql.Visitor, n sql.Node, err error) 
 				strings.EqualFold(n.Name.Name, "unixepoch")) {
 			if len(n.Args) == 0 {
 				// An omitted time value means 'now'.
-				n.Args = append(n.Args, jd)
+				n.Args = append(n.Args, rw.pinnedNow())
 			} else if isNow(n.Args[0]) {
-				n.Args[0] = jd
+				n.Args[0] = rw.pinnedNow()
 			}
 			rw.modified = true
 		} else if rw.RewriteTime && len(n.Args) > 0 && !n.Star.IsValid() &&
 			strings.EqualFold(n.Name.Name, "strftime") {
 			if len(n.Args) == 1 {
 				// A format without a time value means 'now'.
-				n.Args = append(n.Args, jd)
+				n.Args = append(n.Args, rw.pinnedNow())
 			} else if isNow(n.Args[1]) {
-				n.Args[1] = jd
+				n.Args[1] = rw.pinnedNow()
 			}
 			rw.modified = true
 		} else if rw.RewriteTime && len(n.Args) > 1 &&
 			strings.EqualFold(n.Name.Name, "timediff") {
 			if isNow(n.Args[0]) {
-				n.Args[0] = jd
+				n.Args[0] = rw.pinnedNow()
 			}
 			if isNow(n.Args[1]) {
-				n.Args[1] = jd
+				n.Args[1] = rw.pinnedNow()
 			}
 			rw.modified = true
 		} else if !rw.orderedBy && rw.RewriteRand && strings.EqualFold(n.Name.Name, "random") {
@@ -226,6 +229,16 @@ func (rw *Rewriter) VisitEnd(node sql.Node) (sql.Node, error) {
 		rw.orderedBy = false
 	}
 	return node, nil
+}
+
+// pinnedNow returns the Julian day that replaces 'now' in the current statement.
+// The clock is read once per statement.
+func (rw *Rewriter) pinnedNow() *sql.NumberLit {
+	if rw.now == nil {
+		rw.now = julianDayAsNumberLit(rw.nowFn())
+	}
+	lit := *rw.now
+	return &lit
 }
 
 func isNow(e sql.Expr) bool {
